@@ -54,14 +54,16 @@ static CMR_ERROR op_network(CMR* cmr, TOKS* t, OUT* o)
   CMR_GRAPH* g = NULL; CMR_GRAPH_EDGE* forest = NULL; CMR_GRAPH_EDGE* coforest = NULL; bool* reversed = NULL;
   CMR_SUBMAT* sub = NULL;
   uint64_t s0 = sum_chrmat(A);
-  CMR_ERROR e = (transposed ? CMRnetworkTestTranspose : CMRnetworkTestMatrix)(cmr, A, &is, &supp, wantgraph ? &g : NULL,
+  /* wantsub == 2: the submatrix is requested but the (optional) support flag is not */
+  int nosupp = wantsub == 2;
+  CMR_ERROR e = (transposed ? CMRnetworkTestTranspose : CMRnetworkTestMatrix)(cmr, A, &is, nosupp ? NULL : &supp, wantgraph ? &g : NULL,
     wantgraph ? &forest : NULL, wantgraph ? &coforest : NULL, wantgraph ? &reversed : NULL, wantsub ? &sub : NULL, NULL,
     h_time_limit);
   if (sum_chrmat(A) != s0) h_input_modified = 1;
   if (!e)
   {
     out_str(o, is ? " yes" : " no");
-    out_str(o, supp ? " supp=yes" : " supp=no");
+    out_str(o, nosupp ? " supp=-" : supp ? " supp=yes" : " supp=no");
     size_t nf = transposed ? A->numColumns : A->numRows, nc = transposed ? A->numRows : A->numColumns;
     if (g)
     {
